@@ -353,4 +353,68 @@ and the exact value of the float `p`, for which the float operations are exact) 
 def distKernel (p P : Nat → Nat → Rat) : Adj :=
   distKernelG (fun a b => decide (b ≤ a)) (fun x => (1 / 2 : Rat) * x) (· + ·) p P
 
+/-! ## round 4: the conditions as the C compiler evaluates them, the draw as numpy evaluates it
+
+`cond_len_c1/2` compute `abs(D[..] - D[..]) < eps` with `FIELD_t` (binary32) operands and a C `float`
+`eps`: the subtraction is rounded to binary32, `fabsf` and `<` are exact.  Every finite binary32 number
+is an integer multiple of `2^-149`, so distances and tolerance are *integers* in that unit (or in any
+coarser power-of-two unit that makes the data integral) and the rounding is a function `Int → Int`.
+`np.floor(rd.random() * E)` multiplies in binary64. -/
+
+/-- IEEE-754 round to nearest, ties to even, to `p` significant bits, on integers (magnitudes below
+`2^p` are exact — this covers the subnormal range when the unit is `2^-149` resp. `2^-1074`;
+overflow is not modelled: a magnitude beyond the largest finite number stays beyond every finite
+`eps`, so `< eps` is false either way) -/
+def rndP (p : Nat) (n : Int) : Int :=
+  let a := n.natAbs
+  if a < 2 ^ p then n else
+    let s := Nat.log2 a + 1 - p
+    let q := a / 2 ^ s
+    let r := a % 2 ^ s
+    let h := 2 ^ (s - 1)
+    let q' := if r < h then q else if h < r then q + 1 else if q % 2 = 0 then q else q + 1
+    if n < 0 then -((q' * 2 ^ s : Nat) : Int) else ((q' * 2 ^ s : Nat) : Int)
+
+/-- binary32 (`FIELD_t`, C `float`) -/
+def rnd32 : Int → Int := rndP 24
+
+/-- binary64 rounding of a rational that is a multiple of `2^-1074` (every product of a double
+with an integer is) -/
+def rnd64 (x : Rat) : Rat :=
+  ((rndP 53 (x * ((2 ^ 1074 : Nat) : Rat)).floor : Int) : Rat) / ((2 ^ 1074 : Nat) : Rat)
+
+/-- the function the pointer `cond_len` refers to, evaluated with rounding `rnd` -/
+def condLenFl (rnd : Int → Int) (c : GeoCfg) (s t k l : Nat) : Bool :=
+  match (wrapperOf c.mode).1 with
+  | .cond_len_c1 => condLenC1R rnd c.D c.eps s t k l
+  | .cond_len_c2 => condLenC2R rnd c.D c.eps s t k l
+
+/-- the `if` of the loop body with the length condition in floating point -/
+def geoAcceptFl (rnd : Int → Int) (c : GeoCfg) (A : Adj) (s t k l : Nat) : Bool :=
+  geoIf A (degNullM c) (condDegCorr c.degree) (condLenFl rnd c) s t k l
+
+/-- `geoStep` with the floating-point `if` -/
+def geoStepFl (rnd : Int → Int) (c : GeoCfg) (st : GeoSt) (d : Nat × Nat) : Option GeoSt :=
+  match st.edges[d.1]?, st.edges[d.2]? with
+  | some (s, t), some (k, l) =>
+    if geoAcceptFl rnd c st.A s t k l then
+      some { A := rewireM st.A s t k l
+             edges := (st.edges.set d.1 (geoEdge1 s t k l)).set d.2 (geoEdge2 s t k l)
+             i := st.i + 1 }
+    else some st
+  | _, _ => none
+
+def geoRunFl (rnd : Int → Int) (c : GeoCfg) (iterations : Nat) : List (Nat × Nat) → GeoSt → Option GeoSt
+  | [], st => some st
+  | d :: ds, st =>
+    if geoWhile st.i iterations then (geoStepFl rnd c st d).bind (geoRunFl rnd c iterations ds)
+    else some st
+
+/-- the public method with the kernel in floating point (`D`, `eps` = the binary32 arrays
+`to_cy(distance_matrix, FIELD)` / the C `float` the wrapper hands over) -/
+def geoMethodFl (rnd : Int → Int) (mode : GeoMode) (D : Nat → Nat → Int) (eps : Int) (n : Nat) (A : Adj)
+    (iterations : Nat) (draws : List (Nat × Nat)) : Option GeoSt :=
+  geoRunFl rnd { mode := mode, D := D, eps := eps, degree := fun v => deg A n v } iterations draws
+    ⟨A, edgeList n A, 0⟩
+
 end Pyunicorn.Random
